@@ -1,7 +1,9 @@
 """setup + self-tests of the simulator itself.
 
 determinism: for every engine, N run seeds are executed (a) by 4 workers, (b) by 16 workers (different
-sharding, different processes), (c) -- for the engines that claim hash-seed independence -- under two
+sharding, different processes), (b') by 3 workers in *reversed* order (a run's event log must not depend on
+which runs preceded it in the same interpreter: catches cross-run contamination through module globals or
+caches, in the harness or in the code under test), (c) -- for the engines that claim hash-seed independence -- under two
 other PYTHONHASHSEED values; the per-run event-log digests must be identical.  Run before any property
 is believed; repeat after every new seam or fault kind.
 """
@@ -46,7 +48,7 @@ def determinism(props, seed, scale=1.0):
             n = max(16, int(SAMPLE[prop] * scale))
             saved_runs, saved_hs = dict(mod.RUNS), dict(getattr(mod, "HASHSEEDS", {}))
             mod.RUNS = dict(mod.RUNS, quick=n)
-            configs = [("w4-h0", 4, [0]), ("w16-h0", 16, [0])]
+            configs = [("w4-h0", 4, [0]), ("w16-h0", 16, [0]), ("w3-h0-reversed", 3, [0])]
             if prop in HASH_INDEPENDENT:
                 configs.append(("w8-h1+h31337", 8, [1, 31337]))
             digs = {}
@@ -57,7 +59,7 @@ def determinism(props, seed, scale=1.0):
                 if hv is not None:
                     del mod.hashseed_violation  # the self-test compares digests itself
                 try:
-                    rc, ev, d = driver.run_check(mod, "quick", seed, workers=K, keep_digests=True, quiet=True, hashseeds=hs, out_dir=out)
+                    rc, ev, d = driver.run_check(mod, "quick", seed, workers=K, keep_digests=True, quiet=True, hashseeds=hs, out_dir=out, reverse=name.endswith("reversed"))
                 finally:
                     if hv is not None:
                         mod.hashseed_violation = hv
